@@ -24,7 +24,7 @@ DP = "superrec2.utils.dynamic_programming"
 _add(PropertySpec(
     "C16", files=["subsequences", "dynamic_programming"],
     targets=[f"{DP}:Entry.__init__@policies", f"{DP}:Entry.__init__@values", f"{DP}:Entry.value", f"{DP}:Entry.infos",
-             f"{DP}:Entry.is_infinite", f"{DP}:Entry.update"],
-    level="proof",
+             f"{DP}:Entry.is_infinite", f"{DP}:Entry.update", f"{DP}:Entry.combine", f"{DP}:Entry.__iter__"],
+    level="proof", standins=["dynamic_programming:Table-proxies"],
     technique="contract-based deductive verification: sidecar contracts + loop invariants on the real AST, VCs discharged by z3/cvc5",
 ))
